@@ -16,7 +16,7 @@ RULE = (
     "ones, early-firing joins with failing or slow branches, synthetic before/after/on-failure stages that fail, "
     "suspending stages without a signal, jump loops that hit the limit, mutex / deferred-choice siblings, a parent with synthetic "
     "children next to a failing sibling whose StartStage is held back until everything else has drained) x delivery "
-    "schedules - also with a transient 'database is locked' injected at the COMMIT of every transaction in turn - x delivery "
+    "schedules - also with a transient 'database is locked' injected at the COMMIT, or at the first write, of every handler transaction in turn - x delivery "
     "schedule (random / LIFO order, withheld acks, one message held back k steps); plus the same family run by three "
     "worker threads interleaved at SQL-statement granularity (random / PCT schedules). After the queue is drained the "
     "four quiescence predicates are evaluated on store.retrieve(). Non-trivial = quiescent run whose final state is not "
@@ -57,6 +57,7 @@ def gen_cases(tier: str, seed: int) -> list[dict]:
     cases += [{"kind": "race", "i": i, "seed": seed, "runs": 12} for i in range(24 if tier == "quick" else 200)]
     cases += [{"kind": "late_start", "i": i, "seed": seed} for i in range(6 if tier == "quick" else 40)]
     cases += [{"kind": "commit_fault", "i": i, "seed": seed} for i in range(10 if tier == "quick" else 80)]
+    cases += [{"kind": "commit_fault", "i": i, "seed": seed, "at": "first_write"} for i in range(6 if tier == "quick" else 60)]
     return cases
 
 
@@ -141,12 +142,19 @@ class _CommitFault:
     """One-shot failpoint: the n-th COMMIT issued by the engine fails with 'database is locked' (another
     connection was reading at that instant); everything the transaction wrote is rolled back by the caller."""
 
-    def __init__(self, n: int) -> None:
-        self.n, self.count, self.fired, self.where = n, 0, False, None
+    def __init__(self, n: int, at: str = "commit") -> None:
+        self.n, self.count, self.fired, self.where, self.at = n, 0, False, None, at
 
     def __call__(self, conn, sql, args) -> None:
-        if self.fired or sql != "COMMIT" or not conn.in_transaction:
+        if self.fired:
             return
+        if self.at == "commit":
+            if sql != "COMMIT" or not conn.in_transaction:
+                return
+        else:
+            # the first write of a transaction (sqlite takes the RESERVED lock there; python's implicit BEGIN is deferred)
+            if conn.in_transaction or sql.lstrip()[:6].upper() not in ("INSERT", "UPDATE", "DELETE"):
+                return
         import threading
 
         from .. import vtask
@@ -176,12 +184,13 @@ def _commit_fault(case: dict) -> dict:
     violations = []
     if not base.quiescent:
         return {"violations": [], "obs": {"reference_not_quiescent": 1}, "keys": []}
+    at = case.get("at", "commit")
     ncommits = len([c for c in base.commits if c[3]])
-    positions = list(range(ncommits))
+    positions = list(range(ncommits + (4 if at != "commit" else 0)))
     if len(positions) > 40:
         positions = sorted(rng.sample(positions, 40))
     for n in positions:
-        fp = _CommitFault(n)
+        fp = _CommitFault(n, at)
         hooks.H.stmt_hook = fp
         try:
             run = delivery_run(spec, max_steps=base.steps * 4 + 100)
@@ -199,9 +208,9 @@ def _commit_fault(case: dict) -> dict:
         if run.state["wf"] != base.state["wf"] and not v:
             obs["outcome_changed_by_commit_fault"] += 1
         for x in v:
-            x.update(spec=spec["name"], commit_fault_at=n, commit_fault_in=fp.where)
+            x.update(spec=spec["name"], commit_fault_at=n, commit_fault_in=fp.where, at=at)
         violations += v
-        keys.add(f"commitfault:{spec['name'].split('_')[0]}:{run.state['wf']}")
+        keys.add(f"{at}fault:{spec['name'].split('_')[0]}:{run.state['wf']}")
     seen = set()
     uniq = []
     for x in violations:
